@@ -380,7 +380,7 @@ Proof.
     + left. reflexivity.
 Qed.
 
-(* streamRecv: receive, enlarge on MissingBuffer, receive again *)
+(* streamRecv: receive; while MissingBuffer enlarge by 64 and receive again *)
 Definition recv_out (v : variant) (rs rs' : rh) (z : Z) (d' : dqueue) : Prop :=
   rh_inv v rs' /\ rh_d rs' = d' /\ rh_in rs' = rh_in rs /\
   (rh_stop rs' = true \/
@@ -390,50 +390,106 @@ Definition recv_out (v : variant) (rs rs' : rh) (z : Z) (d' : dqueue) : Prop :=
   (sstream v (dq_st (rh_d rs)) (contents (dq_q (rh_d rs))) ->
    rh_stop rs' = false /\ sstream v (dq_st d') (contents (dq_q d'))).
 
+(* the state after one receive, relative to the messages [m0], the input [i0] and the stream
+   premise [P0] of the state the whole streamRecv started from *)
+Definition recv_rel (v : variant) (m0 : list (list byte)) (i0 : list byte) (P0 : Prop) (rs' : rh) (r : rres) (d' : dqueue) : Prop :=
+  rh_inv v rs' /\ rh_d rs' = d' /\ rh_in rs' = i0 /\
+  (rh_stop rs' = true \/
+   (rh_stop rs' = false /\
+    match r with
+    | RMsg => pend d' <> [] /\ rh_msgs rs' = m0 ++ pend d'
+    | _ => pend d' = [] /\ rh_msgs rs' = m0
+    end)) /\
+  (P0 -> rh_stop rs' = false /\ sstream v (dq_st d') (contents (dq_q d'))) /\
+  (r = RErr MissingBuffer -> rh_stop rs' = false).
+
+Lemma recv_step_rel v rs r d1 : rh_inv v rs -> rh_stop rs = false -> dqueue_recv v (rh_d rs) = Ok (r, d1) ->
+  recv_rel v (rh_msgs rs) (rh_in rs) (sstream v (dq_st (rh_d rs)) (contents (dq_q (rh_d rs)))) (rh_step v rs RRecv) r d1.
+Proof.
+  intros Hi Est H. destruct (recv_step v rs r d1 Hi Est H) as (Hd & Hin & Hcase & Hns).
+  split; [apply rh_step_inv; exact Hi|]. split; [exact Hd|]. split; [exact Hin|]. split; [exact Hcase|]. split; [exact Hns|].
+  intros ->. unfold rh_step. rewrite Est.
+  destruct (Nat.eqb_spec (qlen (dq_q (rh_d rs))) 0); [reflexivity|]. rewrite H. reflexivity.
+Qed.
+
+Lemma grecv_loop_sim v m0 i0 (P0 : Prop) : forall fuel rs1 r d1 z d',
+  recv_rel v m0 i0 P0 rs1 r d1 -> grecv_loop fuel v r d1 = Ok (z, d') ->
+  exists rops, let rs' := rh_run v rs1 rops in
+    rh_inv v rs' /\ rh_d rs' = d' /\ rh_in rs' = i0 /\
+    (rh_stop rs' = true \/
+     (rh_stop rs' = false /\
+      (((0 < z)%Z /\ pend d' <> [] /\ rh_msgs rs' = m0 ++ pend d') \/
+       ((z <= 0)%Z /\ pend d' = [] /\ rh_msgs rs' = m0)))) /\
+    (P0 -> rh_stop rs' = false /\ sstream v (dq_st d') (contents (dq_q d'))).
+Proof.
+  induction fuel as [|fuel IH]; intros rs1 r d1 z d' (Hi1 & Hd1 & Hin1 & Hcase1 & Hns1 & Hmb1) H.
+  - (* no more rounds *)
+    assert (Hfin : forall zz, Ok (zz, d1) = Ok (z, d') ->
+              (match r with RMsg => (0 < zz)%Z | _ => (zz <= 0)%Z end) ->
+              exists rops, let rs' := rh_run v rs1 rops in
+                rh_inv v rs' /\ rh_d rs' = d' /\ rh_in rs' = i0 /\
+                (rh_stop rs' = true \/
+                 (rh_stop rs' = false /\
+                  (((0 < z)%Z /\ pend d' <> [] /\ rh_msgs rs' = m0 ++ pend d') \/
+                   ((z <= 0)%Z /\ pend d' = [] /\ rh_msgs rs' = m0)))) /\
+                (P0 -> rh_stop rs' = false /\ sstream v (dq_st d') (contents (dq_q d')))).
+    { intros zz E Hz. inversion E; subst zz d'. exists []. cbn zeta. unfold rh_run. cbn [fold_left].
+      split; [exact Hi1|]. split; [exact Hd1|]. split; [exact Hin1|]. split; [|exact Hns1].
+      destruct Hcase1 as [Hs|[Hs Hm]]; [left; exact Hs|right; split; [exact Hs|]].
+      destruct r as [| |e|]; [left; split; [exact Hz|exact Hm]|right; split; [exact Hz|exact Hm]
+                            |right; split; [exact Hz|exact Hm]|right; split; [exact Hz|exact Hm]]. }
+    cbn [grecv_loop] in H. destruct r as [| |e|]; cbn [rres_z bind] in H; try discriminate.
+    + apply (Hfin _ H). lia.
+    + apply (Hfin _ H). lia.
+    + destruct e; cbn [rres_z bind] in H; apply (Hfin _ H); cbn; lia.
+  - assert (Hfin : forall zz, Ok (zz, d1) = Ok (z, d') ->
+              (match r with RMsg => (0 < zz)%Z | _ => (zz <= 0)%Z end) ->
+              exists rops, let rs' := rh_run v rs1 rops in
+                rh_inv v rs' /\ rh_d rs' = d' /\ rh_in rs' = i0 /\
+                (rh_stop rs' = true \/
+                 (rh_stop rs' = false /\
+                  (((0 < z)%Z /\ pend d' <> [] /\ rh_msgs rs' = m0 ++ pend d') \/
+                   ((z <= 0)%Z /\ pend d' = [] /\ rh_msgs rs' = m0)))) /\
+                (P0 -> rh_stop rs' = false /\ sstream v (dq_st d') (contents (dq_q d')))).
+    { intros zz E Hz. inversion E; subst zz d'. exists []. cbn zeta. unfold rh_run. cbn [fold_left].
+      split; [exact Hi1|]. split; [exact Hd1|]. split; [exact Hin1|]. split; [|exact Hns1].
+      destruct Hcase1 as [Hs|[Hs Hm]]; [left; exact Hs|right; split; [exact Hs|]].
+      destruct r as [| |e|]; [left; split; [exact Hz|exact Hm]|right; split; [exact Hz|exact Hm]
+                            |right; split; [exact Hz|exact Hm]|right; split; [exact Hz|exact Hm]]. }
+    cbn [grecv_loop] in H. destruct r as [| |e|]; cbn [rres_z bind] in H; try discriminate.
+    + apply (Hfin _ H). lia.
+    + apply (Hfin _ H). lia.
+    + destruct e; try (cbn [rres_z bind] in H; apply (Hfin _ H); cbn; lia).
+      (* MissingBuffer: enlarge and receive again *)
+      pose proof (Hmb1 eq_refl) as Hs1.
+      destruct Hcase1 as [Hbad|[_ [Hp1 Hm1]]]; [congruence|].
+      destruct (rh_cinv v rs1 Hi1 Hs1) as (Hq1 & _). rewrite Hd1 in Hq1.
+      destruct (qprepare_spec (dq_q d1) 64 FILL Hq1) as (q' & fr & Eq & _ & _ & Hcq'). rewrite Eq in H.
+      set (rs2 := rh_step v rs1 (RGrow 64 FILL)).
+      assert (E2 : rs2 = mkrh (mkdq q' (dq_st d1)) (rh_msgs rs1) false (rh_in rs1)).
+      { unfold rs2, rh_step. rewrite Hs1, Hd1, Eq. reflexivity. }
+      pose proof (rh_step_inv v rs1 (RGrow 64 FILL) Hi1) as Hi2. fold rs2 in Hi2.
+      destruct (dqueue_recv v (mkdq q' (dq_st d1))) as [[r2 d2]| |] eqn:E3; [|discriminate|discriminate]. cbn [bind] in H.
+      pose proof (recv_step_rel v rs2 r2 d2 Hi2 ltac:(rewrite E2; reflexivity) ltac:(rewrite E2; exact E3)) as Hrel.
+      assert (Hrel' : recv_rel v m0 i0 P0 (rh_step v rs2 RRecv) r2 d2).
+      { destruct Hrel as (A1 & A2 & A3 & A4 & A5 & A6). split; [exact A1|]. split; [exact A2|].
+        split; [rewrite A3, E2; cbn [rh_in]; exact Hin1|].
+        assert (Hm2 : rh_msgs rs2 = m0) by (rewrite E2; cbn [rh_msgs]; exact Hm1).
+        split; [rewrite Hm2 in A4; exact A4|].
+        split; [|exact A6].
+        intros HP. destruct (Hns1 HP) as [_ Hsd1]. apply A5. rewrite E2. cbn [rh_d dq_q dq_st]. rewrite Hcq'. exact Hsd1. }
+      destruct (IH (rh_step v rs2 RRecv) r2 d2 z d' Hrel' H) as (rops & Hfinal).
+      exists (RGrow 64 FILL :: RRecv :: rops). cbn zeta. unfold rh_run. cbn [fold_left]. fold rs2. exact Hfinal.
+Qed.
+
 Lemma grecv_sim v rs z d' : rh_inv v rs -> rh_stop rs = false -> grecv v (rh_d rs) = Ok (z, d') ->
   exists rops, recv_out v rs (rh_run v rs rops) z d'.
 Proof.
   intros Hi Est H. unfold grecv in H.
   destruct (dqueue_recv v (rh_d rs)) as [[r d1]| |] eqn:E1; [|discriminate|discriminate]. cbn [bind] in H.
-  destruct (recv_step v rs r d1 Hi Est E1) as (Hd1 & Hin1 & Hcase1 & Hns1).
-  pose proof (rh_step_inv v rs RRecv Hi) as Hi1.
-  set (rs1 := rh_step v rs RRecv) in *.
-  assert (Hsimple : forall zz, rres_z r = Ok zz -> Ok (zz, d1) = Ok (z, d') ->
-            exists rops, recv_out v rs (rh_run v rs rops) z d').
-  { intros zz Ez E. inversion E; subst zz d'. exists [RRecv]. unfold rh_run. cbn [fold_left]. fold rs1.
-    split; [exact Hi1|]. split; [exact Hd1|]. split; [exact Hin1|]. split; [|exact Hns1].
-    destruct Hcase1 as [Hs|[Hs Hm]]; [left; exact Hs|right; split; [exact Hs|]].
-    destruct r as [| |e|]; cbn [rres_z] in Ez; inversion Ez; subst z.
-    - left. split; [lia|exact Hm].
-    - right. split; [lia|exact Hm].
-    - right. split; [destruct e; cbn; lia|exact Hm]. }
-  destruct r as [| |e|]; [cbn [rres_z bind] in H; apply (Hsimple _ eq_refl H)
-                         |cbn [rres_z bind] in H; apply (Hsimple _ eq_refl H)| |discriminate].
-  destruct e; try (cbn [rres_z bind] in H; apply (Hsimple _ eq_refl H)).
-  (* MissingBuffer *)
-  destruct Hcase1 as [Hs1|[Hs1 [Hp1 Hm1]]].
-  { (* cannot happen: MissingBuffer does not stop the history *)
-    unfold rs1, rh_step in Hs1. rewrite Est in Hs1.
-    destruct (qlen (dq_q (rh_d rs)) =? 0); [discriminate|]. rewrite E1 in Hs1. discriminate. }
-  destruct (rh_cinv v rs1 Hi1 Hs1) as (Hq1 & _). rewrite Hd1 in Hq1.
-  destruct (qprepare_spec (dq_q d1) 64 FILL Hq1) as (q' & fr & Eq & _ & _ & Hcq'). rewrite Eq in H.
-  set (rs2 := rh_step v rs1 (RGrow 64 FILL)).
-  assert (E2 : rs2 = mkrh (mkdq q' (dq_st d1)) (rh_msgs rs1) false (rh_in rs1)).
-  { unfold rs2, rh_step. rewrite Hs1, Hd1, Eq. reflexivity. }
-  pose proof (rh_step_inv v rs1 (RGrow 64 FILL) Hi1) as Hi2. fold rs2 in Hi2.
-  destruct (dqueue_recv v (mkdq q' (dq_st d1))) as [[r2 d2]| |] eqn:E3; [|discriminate|discriminate]. cbn [bind] in H.
-  destruct (rres_z r2) as [z2| |] eqn:Ez2; [|discriminate|discriminate]. cbn [bind] in H. inversion H; subst z d'; clear H.
-  destruct (recv_step v rs2 r2 d2 Hi2 ltac:(rewrite E2; reflexivity) ltac:(rewrite E2; exact E3)) as (Hd3 & Hin3 & Hcase3 & Hns3).
-  pose proof (rh_step_inv v rs2 RRecv Hi2) as Hi3.
-  exists [RRecv; RGrow 64 FILL; RRecv]. unfold rh_run. cbn [fold_left]. fold rs1. fold rs2.
-  split; [exact Hi3|]. split; [exact Hd3|]. split; [rewrite Hin3, E2; cbn [rh_in]; exact Hin1|]. split.
-  - destruct Hcase3 as [Hs|[Hs Hm]]; [left; exact Hs|right; split; [exact Hs|]].
-    assert (Hm2 : rh_msgs rs2 = rh_msgs rs) by (rewrite E2; cbn [rh_msgs]; exact Hm1). rewrite Hm2 in Hm.
-    destruct r2 as [| |e2|]; cbn [rres_z] in Ez2; inversion Ez2; subst z2.
-    + left. split; [lia|exact Hm].
-    + right. split; [lia|exact Hm].
-    + right. split; [destruct e2; cbn; lia|exact Hm].
-  - intros Hs. destruct (Hns1 Hs) as [_ Hsd1]. apply Hns3. rewrite E2. cbn [rh_d dq_q dq_st]. rewrite Hcq'. exact Hsd1.
+  pose proof (recv_step_rel v rs r d1 Hi Est E1) as Hrel.
+  destruct (grecv_loop_sim v _ _ _ _ _ r d1 z d' Hrel H) as (rops & Hfinal).
+  exists (RRecv :: rops). unfold recv_out. unfold rh_run. cbn [fold_left]. exact Hfinal.
 Qed.
 
 (* ---------- the ghost state of a glue history ---------- *)
